@@ -9,6 +9,7 @@ import (
 
 	"verifharness/internal/fw"
 	"verifharness/internal/gen"
+	"verifharness/internal/ref"
 	"verifharness/internal/val"
 )
 
@@ -19,7 +20,7 @@ func init() {
 	for _, w := range c13Workloads {
 		floor = append(floor, "workload."+w)
 	}
-	floor = append(floor, "shared.where", "shared.subquery", "shared.exists", "shared.in-subquery", "shared.order", "shared.group", "shared.distinct", "shared.cte-wrapped", "par.join", "par.async", "par.spinasync")
+	floor = append(floor, "shared.where", "shared.subquery", "shared.exists", "shared.in-subquery", "shared.order", "shared.group", "shared.distinct", "shared.cte-wrapped", "par.join", "par.join-fail", "par.async", "par.spinasync", "cached.open-range")
 	fw.Register(&fw.Prop{
 		ID:    "C13",
 		Title: "Concurrent queries are free of data races, crashes and cross-talk",
@@ -49,6 +50,7 @@ type c13Job struct {
 	opts     OptSet
 	multiset bool
 	reader   bool // ExecReader(doc, sql) instead of a query
+	refWant  bool // want / wantErr come from the reference model, not from a run in this process
 	feat     string
 	want     string
 	wantErr  bool
@@ -136,6 +138,39 @@ func c13Run(c *fw.Case) {
 		for g := 0; g < G; g++ {
 			for i := 0; i < iters; i++ {
 				d := newRichDoc(c)
+				if c.Chance(0.3) {
+					// the same selector text (open ranges, each, pipes) against documents
+					// of different sizes: whatever is cached must not remember a document
+					each := ref.Dim{Kind: ref.DimEach}
+					rng := func(m int, begin bool) ref.Dim { return ref.Dim{Kind: ref.DimRange, M: m, Begin: begin, End: true} }
+					k := func(n string) ref.SelStep { return ref.KeyStep{Name: n} }
+					asts := []ref.Selector{
+						{Segments: []ref.Segment{{Steps: []ref.SelStep{k("t1"), ref.IndexStep{Dims: []ref.Dim{rng(1, false)}}}}}},
+						{Segments: []ref.Segment{{Steps: []ref.SelStep{k("t1"), ref.IndexStep{Dims: []ref.Dim{{Kind: ref.DimRange, Begin: true, N: 1}}}}}}},
+						{Segments: []ref.Segment{{Steps: []ref.SelStep{k("mm"), ref.IndexStep{Dims: []ref.Dim{each, rng(0, false)}}}}}},
+						{Segments: []ref.Segment{{Steps: []ref.SelStep{k("t1"), ref.IndexStep{Dims: []ref.Dim{each}}, k("obj"), ref.PipeStep{Fields: []ref.PipeField{{Key: "k", Type: "string"}, {Key: "w"}}}}}}},
+						{Segments: []ref.Segment{{Steps: []ref.SelStep{k("t1"), ref.IndexStep{Keep: true, Dims: []ref.Dim{rng(1, false)}}}}}},
+						{Segments: []ref.Segment{{Steps: []ref.SelStep{k("u1"), ref.IndexStep{Dims: []ref.Dim{rng(0, true)}}, k("un1")}}}},
+					}
+					ast := gen.Pick(c.R, asts)
+					sel := ast.Render()
+					doc := d.fresh()
+					// "alone" is decided by the reference model: a baseline computed in this
+					// process would share the process-wide selector cache with the others
+					rv, rerr := ref.EvalSelector(ast, val.Copy(doc))
+					j := &c13Job{doc: doc, sql: sel, reader: true, refWant: true, wantErr: rerr != nil}
+					if rerr == nil {
+						j.want = val.Canon(normEmpty(rv))
+						if arr, ok := rv.([]any); ok && c.Chance(0.5) && len(arr) > 0 {
+							if _, isObj := arr[0].(map[string]any); isObj {
+								j.reader, j.sql = false, "SELECT * FROM `"+sel+"`"
+							}
+						}
+					}
+					jobs[g] = append(jobs[g], j)
+					feats = append(feats, "cached.open-range")
+					continue
+				}
 				f := richForms[c.Intn(len(richForms))]
 				sql := f.build(c, d, "VFAIL")
 				jobs[g] = append(jobs[g], &c13Job{doc: d.fresh(), sql: sql, multiset: f.multiset || strings.Contains(sql, "JOIN")})
@@ -175,7 +210,11 @@ func c13Run(c *fw.Case) {
 		for g := 0; g < G; g++ {
 			for i := 0; i < iters; i++ {
 				var sql, feat string
-				switch c.Intn(4) {
+				switch c.Intn(5) {
+				case 4:
+					// several key groups fail at once: the join must report an error, not dead-lock
+					jn := gen.Pick(c.R, []string{"PARALLEL JOIN", "PARALLEL LEFT JOIN", "PARALLEL HASH_JOIN", "PARALLEL STRAIGHT_JOIN"})
+					sql, feat = "SELECT * FROM t1 x "+jn+" u1 y ON x.n1 = y.un1 AND "+gen.Pick(c.R, []string{"5", "x.s1", "NOSUCHFN(1)"}), "par.join-fail"
 				case 0, 1:
 					jn := gen.Pick(c.R, []string{"PARALLEL JOIN", "PARALLEL LEFT JOIN", "PARALLEL RIGHT JOIN", "PARALLEL HASH_JOIN", "PARALLEL LEFT HASH_JOIN", "PARALLEL RIGHT HASH_JOIN", "PARALLEL STRAIGHT_JOIN"})
 					on := gen.Pick(c.R, []string{"x.n1 = y.un1", "x.n1 >= y.un1", "x.n1 = y.un1 OR x.s1 = y.us1", "x.s1 = y.us1 AND x.n1 != y.un1"})
@@ -218,6 +257,9 @@ func c13Run(c *fw.Case) {
 	if !postBaseline {
 		for _, js := range jobs {
 			for _, j := range js {
+				if j.refWant {
+					continue
+				}
 				j.want, j.wantErr, j.panicked, _ = j.exec()
 				if j.panicked != nil {
 					c.Violate("panic", fmt.Sprintf("panic in the sequential baseline: %v", j.panicked), map[string]any{"sql": j.sql})
